@@ -84,6 +84,7 @@ def hash_and_sign_rule(ctx, w, rule):
     paths = dexa.paths(f, [D.sym("entity"), D.sym("kp"), D.sym("object"), D.sym("rr")])
     okp = [p for p in paths if p.kind == "ret" and U.is_ok(p.ret)]
     ctx.floor("hash_and_sign success paths", len(okp), 1)
+    wb = write_back(w, f)
     for p in okp:
         names = [e[0].rsplit("::", 1)[-1] for e in p.effects]
         def idx(pred):
@@ -91,17 +92,78 @@ def hash_and_sign_rule(ctx, w, rule):
                 if pred(e):
                     return i
             return -1
+        # the map the steps work on: the caller's event itself, or ONE copy of it that is written back when everything has succeeded
+        stores = [e for e in p.effects if e[0].endswith("::insert") and len(e[1]) == 3 and e[1][1] == D.C("sha256")]
+        mW = re.search(r"entry\((clone\(object\)|object), 'hashes'\)", D.show(stores[0][1][0])) if stores else None
+        W_ = mW.group(1) if mW else "object"
         i_hash = idx(lambda e: e[0] == f"{FN}::content_hash" and U.shows(e[1]) == ["object"])
         i_store = idx(lambda e: e[0].endswith("::insert") and len(e[1]) == 3 and e[1][1] == D.C("sha256") and
-                      "'hashes'" in D.show(e[1][0]) and D.show(e[1][2]) == "CanonicalJsonValue::String(Base64::encode(functions::content_hash(object).Ok.0))")
-        i_clone = idx(lambda e: e[0] == "clone")
-        i_red = idx(lambda e: e[0].endswith("canonical_json::redact") and U.shows(e[1]) == ["clone(object)", "rr", "Option::None"])
-        i_sign = idx(lambda e: e[0] == f"{FN}::sign_json" and U.shows(e[1]) == ["entity", "kp", "canonical_json::redact(clone(object), rr, Option::None).Ok.0"])
-        i_back = idx(lambda e: e[0].endswith("::insert") and len(e[1]) == 3 and D.show(e[1][0]) == "object" and e[1][1] == D.C("signatures") and
-                     "get_mut(canonical_json::redact(clone(object), rr, Option::None).Ok.0, 'signatures')" in D.show(e[1][2]))
+                      f"entry({W_}, 'hashes')" in D.show(e[1][0]) and D.show(e[1][2]) == "CanonicalJsonValue::String(Base64::encode(functions::content_hash(object).Ok.0))")
+        i_clone = idx(lambda e: e[0] == "clone" and U.shows(e[1]) == [W_])
+        i_red = idx(lambda e: e[0].endswith("canonical_json::redact") and U.shows(e[1]) == [f"clone({W_})", "rr", "Option::None"])
+        i_sign = idx(lambda e: e[0] == f"{FN}::sign_json" and U.shows(e[1]) == ["entity", "kp", f"canonical_json::redact(clone({W_}), rr, Option::None).Ok.0"])
+        i_back = idx(lambda e: e[0].endswith("::insert") and len(e[1]) == 3 and D.show(e[1][0]) == W_ and e[1][1] == D.C("signatures") and
+                     f"get_mut(canonical_json::redact(clone({W_}), rr, Option::None).Ok.0, 'signatures')" in D.show(e[1][2]))
         order = [i_hash, i_store, i_clone, i_red, i_sign, i_back]
         ctx.check(all(i >= 0 for i in order) and order == sorted(order), rule, f"{rule}:order", w.where(f),
                   bad_msg=f"pipeline steps [hash, store, copy, redact, sign, copy-back] occur at {order} in {names}")
+        if W_ != "object":
+            # working copy: taken from the caller's event before the hash is stored, and moved back into `*object` after the signatures were copied in
+            i_copy = idx(lambda e: e[0] == "clone" and U.shows(e[1]) == ["object"])
+            ctx.check(0 <= i_copy < i_store and wb["ok"], rule, f"{rule}:write-back", w.where(f),
+                      bad_msg=f"the steps work on a copy of the event ({W_}) but the copy is not moved back into the caller's event after the last step: {wb['why']}")
+        else:
+            ctx.check(not wb["sites"], rule, f"{rule}:write-back", w.where(f), bad_msg=f"the caller's event is overwritten as a whole: {wb['why']}")
+
+
+def write_back(w, f):
+    """Assignments `*object = <value>` in hash_and_sign_event (third argument): accepted shape = one assignment, of the copy taken from the event itself,
+    dominated by the insertion of `signatures` and followed by no further call (nothing can fail afterwards)."""
+    import json as _json
+    from . import panic_common as PC
+    body = f["body"]
+    defs = PC.roots(body)
+    cfg = M.Cfg(body)
+    live = set(cfg.reachable(0))
+    sig_blocks = [bi for bi, c in M.calls(body) if c["fn"].endswith("BTreeMap::<K, V, A>::insert") and len(c["args"]) == 3 and
+                  '"signatures"' in _json.dumps(PC.expr(body, defs, c["args"][1]))]
+    # locals that hold the caller's `&mut` itself: the argument, a move / copy of it (`let event = object;`) or a reborrow (`&mut *object`)
+    alias = {3}
+    for _ in range(3):
+        for b in body["blocks"]:
+            for st in b["s"]:
+                if st[0] != "=" or not isinstance(st[1], int):
+                    continue
+                rv = st[2]
+                src = None
+                if rv[0] == "use" and isinstance(rv[1], dict) and "pl" in rv[1]:
+                    src = rv[1]["pl"]
+                elif rv[0] == "ref":
+                    src = rv[2]
+                if isinstance(src, int) and src in alias:
+                    alias.add(st[1])
+                elif isinstance(src, dict) and src.get("l") in alias and src.get("p") == ["*"] and rv[0] == "ref":
+                    alias.add(st[1])
+    sites = []
+    for bi, b in enumerate(body["blocks"]):
+        if bi not in live:
+            continue
+        for st in b["s"]:
+            if st[0] == "=" and isinstance(st[1], dict) and st[1].get("l") in alias and st[1].get("p") == ["*"]:
+                sites.append((bi, st))
+    why = []
+    for bi, st in sites:
+        src = _json.dumps(PC.expr(body, defs, st[2][1])) if st[2][0] == "use" else "?"
+        if not re.fullmatch(r'\["call", "[^"]*Clone>::clone", \[\["arg", 3\]\]\]', src):
+            why.append(f"the value written back is {src[:80]}, not the copy of the event")
+        if not any(sb != bi and cfg.dominates(sb, bi) for sb in sig_blocks):
+            why.append("the write-back is not dominated by the insertion of `signatures`")
+        after = [b2 for b2 in cfg.reachable(bi) if b2 != bi and body["blocks"][b2]["t"][0] == "call"]
+        if after:
+            why.append("a call follows the write-back (it could fail after the event has been replaced)")
+    if not sites:
+        why.append("no `*object = ..` assignment")
+    return {"ok": len(sites) == 1 and not why, "sites": sites, "why": "; ".join(why) or "one write-back of the copy after the last step"}
 
 
 def run(ctx):
